@@ -573,6 +573,14 @@ Proof.
   - exists E. split; [apply kext_refl|]. apply G_set_now. exact H1.
 Qed.
 
+Lemma mkeys_idle_stamp prev : forall sn m, mkeys (track_idle_stamp prev m sn) = mkeys m.
+Proof.
+  intros sn. unfold track_idle_stamp. generalize (sn_idle sn). induction l as [|c l IH]; intros m; cbn [fold_left]; [reflexivity|].
+  rewrite IH. destruct (mem c (idle_of prev (sn_token sn))); [reflexivity|]. apply mkeys_ci_upd. reflexivity.
+Qed.
+Lemma mkeys_idle_stamps prev : forall l m, mkeys (fold_left (track_idle_stamp prev) l m) = mkeys m.
+Proof. induction l as [|sn l IH]; intros m; cbn [fold_left]; [reflexivity|]. rewrite IH. apply mkeys_idle_stamp. Qed.
+
 Lemma Good_next cfg E m o s' :
   Good E (track_op cfg m o (observe s')) [] s' ->
   chk_C06 cfg m o (observe s') = true /\ Good E (track cfg m o (observe s')) [] (set_out [] s').
@@ -582,7 +590,7 @@ Proof.
   - constructor; auto. unfold TT. cbn [out set_out rev evs_ok fold_left]. split; [reflexivity|].
     unfold track. cbn [o_events observe].
     match goal with |- mkeys (set_m_prev _ (set_m_i _ ?X)) = _ => change (mkeys X = (e_du E, e_co E)) end.
-    rewrite mkeys_track_offer. exact B2.
+    rewrite mkeys_idle_stamps, mkeys_track_offer. exact B2.
 Qed.
 
 (* ---------------------------------------------------------------- every history *)
